@@ -245,7 +245,7 @@ def run(ctx):
 
     # ---- native build of /repo's CURRENT tproxy.c (unmodified; #included by the driver)
     cdir = os.path.join(VERIF, "harness", "c")
-    cdrv = os.path.join(CACHE, "bin", "c03_tc_native")
+    cdrv = os.path.join(ctx.bindir, "c03_tc_native")
     os.makedirs(os.path.dirname(cdrv), exist_ok=True)
     if os.path.exists(cdrv):
         os.unlink(cdrv)
